@@ -20,11 +20,19 @@ def prop(pid, level, technique, text, note, claimed=True, reason=None):
 prop("C01", "model_checking",
      "exhaustive enumeration of all ordered pairs of reachable replica states x initiator x backend x reconciliation parameters, each session executed on the real code and compared with the reference join",
      "Every ordered pair of replica states reachable from small subsets of the entry universe is reconciled by the real Replica::sync_* functions (memory and file-backed redb, every parameter setting) and must terminate, converge to the reference join, mirror counters and be followed by an empty second session.",
-     "Bounded: subsets of <=2 (quick) / <=3 (thorough) entries plus a large-state family; blake3/XOR fingerprint collisions and values outside the alphabet are not covered.", claimed=False)
+     "Bounded: subsets of <=2 (quick) / <=3 (thorough) entries plus a large-state family; blake3/XOR fingerprint collisions and values outside the alphabet are not covered.")
 prop("C02", "model_checking",
      "exhaustive enumeration of all operation sequences up to a depth over a small entry alphabet on the real replica, compared step by step with a reference model and with the from-scratch definition",
      "All sequences (hence all permutations and duplications) of <=3 (quick) / <=4 (thorough) entries through remote insert, local insert and prefix delete on a real replica; return values, full dumps, both index paths and point lookups must equal the reference antichain model and spec(set(sequence)).",
      "Bounded depth and alphabet (keys '', a, a\\xff, ab, b, \\xff, \\xff\\xff; 3 timestamps; live/other-hash/tombstone); entries differing only in len are outside the alphabet.")
+prop("C08", "model_checking",
+     "differential exhaustive enumeration: every pair of reachable states x parameter setting reconciled on in-memory redb, file-backed redb and an ordered-map reference backend driven by the crate's own algorithm (byte-identical transcripts), plus every range of an identifier lattice against the set-theoretic definitions of the storage primitives",
+     "Relational check on the real code: the same sessions on three backends must produce byte-identical serialized protocol messages and final sets; every storage primitive of StoreInstance is compared with its ordered-map definition on every reachable state and every (x,y) of a 24-point lattice including wrap-around and x=y.",
+     "Bounded states (<=3 offered entries, plus a 7..9-entry family); ranges inside the document's namespace; the reference backend is the definition (ascending identifier order), as in the crate's own test stand-in.")
+prop("C13", "model_checking",
+     "exhaustive enumeration of all operation sequences up to a depth (inserts of a two-author universe, document removal and re-creation) on the real store against reference heads, plus exhaustive enumeration of small author-head sets x all size limits for the codec",
+     "Heads and has_news_for_us are compared with the reference replica after every history of <=3 (quick) / <=4 (thorough) steps for all 16 peer reports; AuthorHeads::encode/decode is checked on all 2401 head sets of <=4 authors over 6 varint-edge timestamps (ties included) under every size limit.",
+     "Bounded depth/alphabet; limit 0 excluded (unsatisfiable); any key attaining the maximum is accepted as the head's key.")
 
 ORDER = ["C%02d" % i for i in range(1, 19)]
 
